@@ -66,13 +66,14 @@ def main():
             ok = False
             continue
         open(path, "w").write(src.replace(old, new))
-        r = subprocess.run(["/verif/bin/check", prop], capture_output=True, text=True, cwd="/verif", env=dict(os.environ, PYVC_REPO=scratch))
+        r = subprocess.run(["/verif/bin/check", prop], capture_output=True, text=True, cwd="/verif", env=dict(os.environ, PYVC_REPO=scratch, PYVC_OUT=scratch + "_out"))
         viol = [l.split("obligation=")[-1] for l in r.stdout.splitlines() if l.startswith("VIOLATION")]
         good = (r.returncode == 1 and viol) if expect else (r.returncode == 0)
         ok &= bool(good)
         rows.append((prop, f.split("/")[-1], new.strip().splitlines()[0][:60], expect, r.returncode, viol[:2]))
         print(("ok  " if good else "BAD ") + f"{prop} {f.split('/')[-1]:20s} expect_violation={expect} exit={r.returncode} {viol[:2]}", flush=True)
     shutil.rmtree(scratch, ignore_errors=True)
+    shutil.rmtree(scratch + "_out", ignore_errors=True)
     sys.exit(0 if ok else 1)
 
 
